@@ -302,7 +302,7 @@ impl Layer {
     ///
     /// Panics if .
     pub fn from_clipboard_data(data: &[u8]) -> Option<Layer> {
-        if data[0] != 0 {
+        if data.len() < 17 || data[0] != 0 {
             return None;
         }
         let x = i32::from_le_bytes(data[1..5].try_into().unwrap());
@@ -317,6 +317,9 @@ impl Layer {
         layer.set_offset((x, y));
         for y in 0..height {
             for x in 0..width {
+                if data.len() < 14 {
+                    return None;
+                }
                 let ch = AttributedChar {
                     ch: char::from_u32(u16::from_le_bytes([data[0], data[1]]) as u32)?,
                     attribute: TextAttribute {
